@@ -127,3 +127,30 @@ func VerifC10_Concurrent() {
 	}
 	wg.Wait()
 }
+
+// VerifC10_Preload: a start that pre-loads the chunks named by an init state file (solver-chosen
+// bitmap, background workers) over a store whose k-th GetChunk fails; the state is saved while
+// pre-loading may still be pending or have failed; after a restart that reuses cache file and
+// saved state every read returns the blob's bytes or an error - never unpopulated zeros.
+func VerifC10_Preload() {
+	vPreempt(1)
+	blob, idx, st := verifBlobIndex(2, 2)
+	st.yield = true
+	st.useAt, st.failHasAt, st.failPutAt = true, -1, -1
+	st.failGetAt = vInt("fail-get-at")
+	vAssume(st.failGetAt >= -1 && st.failGetAt < 2)
+	dir := vTempDir()
+	os.WriteFile(dir+"/init", []byte{byte(vChoose("init-bitmap", 4))}, 0644) // which of the two chunks to pre-load
+	opt := SparseFileOptions{StateSaveFile: dir + "/state", StateInitFile: dir + "/init", StateInitConcurrency: 1}
+	sf, err := NewSparseFile(dir+"/cache", idx, st, opt)
+	vAssert(err == nil, "NewSparseFile failed")
+	length := int64(len(blob))
+	vAssert(sf.WriteState() == nil, "WriteState failed")
+	vCover("state-saved")
+	// restart with the same cache file and saved state, no init file this time
+	sf2, err := NewSparseFile(dir+"/cache", idx, st, SparseFileOptions{StateSaveFile: dir + "/state"})
+	vAssert(err == nil, "NewSparseFile failed on restart")
+	h2, _ := sf2.Open()
+	verifSparseRead(h2, blob, 0, int(length), "after restart")
+	vCover("restarted")
+}
